@@ -398,10 +398,10 @@ Print Assumptions C14_scan_no_miss_instantiated.
    outcome of a feed do not depend on the heap, the value stack or the callbacks, so a trial made with
    callbacks = {} on a shallow copy - which, moreover, only allocates (trial_feed_pure) - cannot change what the
    stunted parse does next *)
-Theorem C14_trial_cannot_disturb k Tb cb cb' H H' ss vs vs' ty id e :
+Theorem C14_trial_cannot_disturb k Tb (cb cb' : IDriver.cbenv) H H' ss vs vs' ty id e :
   (IDriver_proofs.rss (IDriver.hfeed k Tb cb H ss vs ty id e), IDriver_proofs.rkd (IDriver.hfeed k Tb cb H ss vs ty id e)) =
   (IDriver_proofs.rss (IDriver.hfeed k Tb cb' H' ss vs' ty id e), IDriver_proofs.rkd (IDriver.hfeed k Tb cb' H' ss vs' ty id e))
-  /\ exists ext, IDriver_proofs.rH (IDriver.hfeed k Tb (fun _ => IDriver.cb_none) H ss vs ty id e) = H ++ ext.
+  /\ exists ext, IDriver_proofs.rH (IDriver.hfeed k Tb IDriver.env_none H ss vs ty id e) = H ++ ext.
 Proof.
   exact (conj (eq_trans (IDriver_proofs.hfeed_ctrl Tb cb k H ss vs ty id e)
                         (eq_sym (IDriver_proofs.hfeed_ctrl Tb cb' k H' ss vs' ty id e)))
